@@ -18,11 +18,15 @@ SCHEMA = '''
 interface Pet { name: String nick: String! }
 type Dog implements Pet { name: String nick: String! bark: Int friend: Pet friends: [Pet] }
 type Cat implements Pet { name: String nick: String! meow: String friend: Pet }
+interface Node { id: ID }
+interface Resource implements Node { id: ID url: String }
+type Page implements Resource & Node { id: ID url: String title: String }
+type Post implements Node { id: ID body: String }
 union U = Dog | Cat
 input In { a: Int = 7 b: [Int!] c: In }
 type Obj { i: Int s: String! o: Obj onn: Obj! l: [Int] lnn: [Int!] lo: [Obj] lonn: [Obj!]!
-           args(x: Int = 3, y: [Int], z: In, w: Boolean! = true): String pet: Pet u: U }
-type Query { obj: Obj objnn: Obj! pet: Pet u: U i: Int }
+           args(x: Int = 3, y: [Int], z: In, w: Boolean! = true): String pet: Pet u: U req(n: Int!): Int }
+type Query { obj: Obj objnn: Obj! pet: Pet u: U i: Int node: Node nodes: [Node] }
 '''
 FRAGS = '''
 fragment FObj on Obj { i k: s }
@@ -36,6 +40,8 @@ OBJ_ATOMS = ["i", "s", "x: i", "x: s", "o { i }", "o { s }", "onn { s }", "onn {
              "a3: args(z: {a: null, c: {}})", "i @skip(if: true)", "i @include(if: false)",
              "s @skip(if: $t)", "x: i @include(if: $f)", "...FObj", "...FObj2",
              "... on Obj { i }", "... @skip(if: $t) { s }", "...FObj @include(if: $f)", "__typename"]
+NODE_ATOMS = ["id", "__typename", "... on Page { title }", "... on Post { body }", "... on Resource { url }",
+              "... on Node { x: id }", "... on Resource { ... on Page { t: title } }"]
 PET_ATOMS = ["name", "nick", "... on Dog { bark }", "... on Cat { meow }", "...FDog", "...FCat", "...FPet",
              "...FDog @skip(if: true)", "... on Dog { friend { nick } }", "... on Dog { friends { name } }",
              "__typename", "x: name", "... on Pet { x: nick }",
@@ -75,7 +81,11 @@ def make_data(variant):
             o["lo"] = [obj(depth + 2), None]
             o["lonn"] = [obj(depth + 2)]
         return o
-    root = {"obj": obj(), "objnn": obj(), "pet": dog(), "u": cat(), "i": 5}
+    # values of the interface-of-interfaces positions carry no __typename: they are typed by is_type_of
+    page = {"kind": "Page", "id": "1", "url": "u", "title": "t"}
+    post = {"kind": "Post", "id": 2, "body": "b"}
+    root = {"obj": obj(), "objnn": obj(), "pet": dog(), "u": cat(), "i": 5,
+            "node": dict(page), "nodes": [dict(post), None, dict(page)]}
     if variant == 1:
         root["obj"]["s"] = None                      # null at a non-null leaf
         root["objnn"]["onn"] = None
@@ -278,6 +288,13 @@ def ref_execute(schema, doc, root, variables):
             return r
         if is_abstract_type(t):
             tn = v.get("__typename") if isinstance(v, Mapping) else None
+            if tn is None and isinstance(v, Mapping):
+                # default type resolution: the object type (a possible type of t) whose is_type_of accepts the value
+                for cand in schema.type_map.values():
+                    if is_object_type(cand) and cand.is_type_of and schema.is_sub_type(t, cand) \
+                            and cand.is_type_of(v, None):
+                        tn = cand.name
+                        break
             rt = schema.get_type(tn) if isinstance(tn, str) else None
             if rt is None or not is_object_type(rt) or not schema.is_sub_type(t, rt):
                 raise FieldError(path)
@@ -295,6 +312,11 @@ def ref_execute(schema, doc, root, variables):
     return data, errors
 
 
+def _set_is_type_of(schema):
+    for n in ("Page", "Post"):
+        schema.type_map[n].is_type_of = lambda v, info, _n=n: hasattr(v, "get") and v.get("kind") == _n
+
+
 def ordered(x):
     """dicts compared with their key order (the response map is ordered)."""
     if isinstance(x, dict):
@@ -309,13 +331,15 @@ def search(seed=0, thorough=False, budget_s=420, variants=range(7)):
     from graphql import build_schema, parse, validate, execute_sync
     t0 = time.time()
     schema = build_schema(SCHEMA)
+    _set_is_type_of(schema)
     from graphql.validation import specified_rules, NoUnusedFragmentsRule
     rules = [r for r in specified_rules if r is not NoUnusedFragmentsRule]
     rnd = random.Random(seed)
     variables = {"t": True, "f": False}
     header = "query Q($t: Boolean = true, $f: Boolean = false) "
     reqs = []
-    for parent, atoms in (("obj", OBJ_ATOMS), ("objnn", OBJ_ATOMS), ("pet", PET_ATOMS), ("u", PET_ATOMS[2:])):
+    for parent, atoms in (("obj", OBJ_ATOMS), ("objnn", OBJ_ATOMS), ("pet", PET_ATOMS), ("u", PET_ATOMS[2:]),
+                          ("node", NODE_ATOMS), ("nodes", NODE_ATOMS)):
         for n in (1, 2):
             for combo in itertools.permutations(atoms, n) if n == 2 else [(a,) for a in atoms]:
                 reqs.append((parent, combo))
@@ -371,12 +395,14 @@ def search_async(seed=0, thorough=False, budget_s=420):
     from graphql.validation import specified_rules, NoUnusedFragmentsRule
     t0 = time.time()
     schema = build_schema(SCHEMA)
+    _set_is_type_of(schema)
     rules = [r for r in specified_rules if r is not NoUnusedFragmentsRule]
     rnd = random.Random(seed)
     variables = {"t": True, "f": False}
     header = "query Q($t: Boolean = true, $f: Boolean = false) "
     reqs = []
-    for parent, atoms in (("obj", OBJ_ATOMS), ("objnn", OBJ_ATOMS), ("pet", PET_ATOMS), ("u", PET_ATOMS[2:])):
+    for parent, atoms in (("obj", OBJ_ATOMS), ("objnn", OBJ_ATOMS), ("pet", PET_ATOMS), ("u", PET_ATOMS[2:]),
+                          ("node", NODE_ATOMS), ("nodes", NODE_ATOMS)):
         for combo in itertools.permutations(atoms, 2):
             reqs.append((parent, combo))
         for _ in range(200):
@@ -435,4 +461,44 @@ def search_async(seed=0, thorough=False, budget_s=420):
     if n < 100:
         raise RuntimeError(f"C02_ref: only {n} async requests were executed")
     search_async.executed = n
+    return None
+
+
+def search_accepted_documents():
+    """C13 on documents whose definitions share names or reuse variables across definitions (the
+    caches of the validation context are keyed by definitions): whatever validate() accepts must execute
+    over conforming data without any error.  BOUNDED: the documents built below (operation and
+    fragment with the same name, two operations using one fragment with different variable
+    definitions, nested fragments, the bad usage in every one of the positions)."""
+    import itertools
+    from graphql import build_schema, parse, validate, execute_sync
+    schema = build_schema(SCHEMA)
+    _set_is_type_of(schema)
+    usages = ["req(n: $v)", "args(x: $v)", "req(n: 1) @include(if: $v)", "lo { req(n: $v) }", "args(y: [$v])", "args(z: {a: $v})"]
+    var_defs = ["", "($v: Int)", "($v: Int!)", "($v: Int = 1)", "($v: Boolean)", "($v: String)", "($w: Int)"]
+    shapes = [
+        "query N%s { obj { ...N } } fragment N on Obj { %s }",
+        "query N%s { obj { ...F } } fragment F on Obj { ...N } fragment N on Obj { %s }",
+        "query A%s { obj { ...N } } query N { obj { i } } fragment N on Obj { %s }",
+        "query N%s { obj { i } } query B { obj { ...N } } fragment N on Obj { %s }",
+        "query A%s { obj { ...F } } query B($v: Int!) { obj { ...F } } fragment F on Obj { %s }",
+    ]
+    for shape, vd, use in itertools.product(shapes, var_defs, usages):
+        text = shape % (vd, use)
+        try:
+            doc = parse(text)
+        except Exception:
+            continue
+        if validate(schema, doc):
+            continue
+        from graphql.language import OperationDefinitionNode
+        for op in [d.name.value for d in doc.definitions if isinstance(d, OperationDefinitionNode)]:
+            # (an explicit null for a nullable variable with a default used in a non-null position is
+            # the one error the specification defers to run time: not generated)
+            for variables in ({}, {"v": 1}, {"v": True}, {"v": "s"}, {"w": 1}):
+                r = execute_sync(schema, doc, make_data(0), variable_values=variables, operation_name=op)
+                if r.errors and not any("Variable '$" in e.message and e.path is None for e in r.errors):
+                    return {"document": text, "operation": op, "variables": variables,
+                            "observed": f"validate() accepts the document, execution over conforming data reports "
+                                        f"{[e.message for e in r.errors]!r}"}
     return None
